@@ -18,6 +18,7 @@ import (
 	"time"
 
 	"github.com/open2b/scriggo"
+	"github.com/open2b/scriggo/native"
 	"github.com/open2b/scriggo/verifbridge"
 	"verifharness/drv"
 )
@@ -37,6 +38,13 @@ type prog struct {
 	Shape   string    `json:"shape"`
 	Chans   []int     `json:"chans"`
 	Threads [][]instr `json:"threads"`
+	// Native lists the threads (1-based) that are started as a `go` statement on a HOST function or
+	// builtin instead of a Scriggo function: their body is a single send (go p.Send(c, v)) or a
+	// single close (go close(c)). Same semantics in the model; a different path in the VM.
+	Native []int `json:"native"`
+	// Style selects how Scriggo threads are written: 0 closures without parameters, 1 and 2 function
+	// literals taking the channels and a number as parameters and returning a (discarded) result.
+	Style int `json:"style"`
 }
 
 type c14Case struct {
@@ -48,19 +56,56 @@ type c14Case struct {
 
 func concretise(p prog) string {
 	var b strings.Builder
-	b.WriteString("package main\n\nfunc main() {\n")
+	b.WriteString("package main\n\nimport \"p\"\n\nvar _ = p.Send\n\nfunc main() {\n")
 	for i, c := range p.Chans {
 		fmt.Fprintf(&b, "\tc%d := make(chan int, %d)\n", i+1, c)
 	}
-	if len(p.Threads) > 1 {
+	native := map[int]bool{}
+	for _, t := range p.Native {
+		native[t] = true
+	}
+	chanParams, chanArgs := "", ""
+	for i := range p.Chans {
+		chanParams += fmt.Sprintf("c%d chan int, ", i+1)
+		chanArgs += fmt.Sprintf("c%d, ", i+1)
+	}
+	var sig, ret string
+	call := func(t int) string { return fmt.Sprintf("t%d()", t) }
+	switch p.Style {
+	case 1:
+		sig, ret = "func(k int, "+strings.TrimSuffix(chanParams, ", ")+") int", "\t\treturn k\n"
+		call = func(t int) string { return fmt.Sprintf("t%d(%d, %s)", t, t, strings.TrimSuffix(chanArgs, ", ")) }
+	case 2:
+		sig, ret = "func("+chanParams+"k int) bool", "\t\treturn k > 0\n"
+		call = func(t int) string { return fmt.Sprintf("t%d(%s%d)", t, chanArgs, t) }
+	default:
+		sig = "func()"
+	}
+	var scriggoThreads []int
+	for t := 2; t <= len(p.Threads); t++ {
+		if !native[t] {
+			scriggoThreads = append(scriggoThreads, t)
+		}
+	}
+	if len(scriggoThreads) > 0 {
 		b.WriteString("\tvar ")
-		for t := 2; t <= len(p.Threads); t++ {
-			if t > 2 {
+		for i, t := range scriggoThreads {
+			if i > 0 {
 				b.WriteString(", ")
 			}
 			fmt.Fprintf(&b, "t%d", t)
 		}
-		b.WriteString(" func()\n")
+		fmt.Fprintf(&b, " %s\n", sig)
+	}
+	goStmt := func(t int) string {
+		if native[t] {
+			i := p.Threads[t-1][0]
+			if i.Op == "close" {
+				return fmt.Sprintf("go close(c%d)", i.Ch)
+			}
+			return fmt.Sprintf("go p.Send(c%d, %d)", i.Ch, i.V)
+		}
+		return "go " + call(t)
 	}
 	body := func(ins []instr, indent string) {
 		fmt.Fprintf(&b, "%sacc := 0\n%s_ = acc\n", indent, indent)
@@ -77,7 +122,7 @@ func concretise(p prog) string {
 			case "close":
 				fmt.Fprintf(&b, "%sclose(c%d)\n", indent, i.Ch)
 			case "go":
-				fmt.Fprintf(&b, "%sgo t%d()\n", indent, i.T)
+				fmt.Fprintf(&b, "%s%s\n", indent, goStmt(i.T))
 			case "range":
 				fmt.Fprintf(&b, "%sfor v := range c%d {\n%s\tacc += v\n%s}\n", indent, i.Ch, indent, indent)
 			case "rangep":
@@ -97,15 +142,21 @@ func concretise(p prog) string {
 			}
 		}
 	}
-	for t := 2; t <= len(p.Threads); t++ {
-		fmt.Fprintf(&b, "\tt%d = func() {\n", t)
+	for _, t := range scriggoThreads {
+		fmt.Fprintf(&b, "\tt%d = %s {\n", t, sig)
 		body(p.Threads[t-1], "\t\t")
+		b.WriteString(ret)
 		b.WriteString("\t}\n")
 	}
 	body(p.Threads[0], "\t")
 	b.WriteString("}\n")
 	return b.String()
 }
+
+// Send is the host function of `go p.Send(c, v)`.
+func Send(c chan int, v int) { c <- v }
+
+var pkgs = native.Packages{"p": native.Package{Name: "p", Declarations: native.Declarations{"Send": Send}}}
 
 var yieldSeed atomic.Int64
 var yieldOn atomic.Bool
@@ -149,7 +200,7 @@ func main() {
 				out = append(out, map[string]any{"id": c.ID, "kind": "run", "shape": c.Shape, "prog": c.Prog, "src": src, "gmp": gmp,
 					"exp": exp, "out": printed, "outcome": outcome, "detail": detail, "where": ""})
 			}
-			pr, err := scriggo.Build(scriggo.Files{"main.go": []byte(src)}, &scriggo.BuildOptions{AllowGoStmt: true})
+			pr, err := scriggo.Build(scriggo.Files{"main.go": []byte(src)}, &scriggo.BuildOptions{AllowGoStmt: true, Packages: pkgs})
 			if err != nil {
 				rec(0, "builderror", err.Error(), nil)
 				return out
